@@ -47,8 +47,13 @@ impl ResponseSink {
                     ))
                 })?;
 
-                let output_row = format.format_response(response)?;
-                writeln!(file_attained, "{}", output_row).map_err(|e| {
+                // row and line break go to the file in one write: `writeln!` issues one write
+                // per piece, and a write through another handle on the same file (a second
+                // sink with the same filename, another run, another process) could land
+                // between the two
+                let mut output_row = format.format_response(response)?;
+                output_row.push('\n');
+                file_attained.write_all(output_row.as_bytes()).map_err(|e| {
                     CompassAppError::InternalError(format!(
                         "failure writing to {}: {}",
                         filename, e
@@ -94,10 +99,11 @@ impl ResponseSink {
                     ))
                 })?;
 
-                let final_contents = format
+                let mut final_contents = format
                     .final_file_contents()
                     .unwrap_or_else(|| String::from(""));
-                writeln!(file_attained, "{}", final_contents).map_err(|e| {
+                final_contents.push('\n');
+                file_attained.write_all(final_contents.as_bytes()).map_err(|e| {
                     CompassAppError::InternalError(format!(
                         "failure writing final contents to {}: {}",
                         filename, e
